@@ -514,9 +514,22 @@ async fn spawn_pipeline_processes(
             }
         };
 
-        let spawn_result = command
+        let spawn_result = match command
             .execute_in_pipeline(pipeline_context, cmd_params)
-            .await?;
+            .await
+        {
+            Ok(spawn_result) => spawn_result,
+            // An error raised while a command runs in its own subshell (e.g., a fatal
+            // expansion error) ends that subshell; it must not take this shell down.
+            Err(err) if !run_in_current_shell => {
+                let mut stderr = params.stderr(shell);
+                let _ = shell.display_error(&mut stderr, &err);
+
+                let result = err.into_result(shell);
+                ExecutionSpawnResult::Completed(ExecutionResult::from(result.exit_code))
+            }
+            Err(err) => return Err(err),
+        };
 
         // Update the process group ID if something was spawned.
         if let ExecutionSpawnResult::StartedProcess(child) = &spawn_result {
